@@ -68,6 +68,9 @@ fn quick_factor(id: &str) -> f64 {
         "C08" | "C09" => 5.0,
         "C01" | "C02" | "C04" | "C07" | "C20" | "C21" | "C32" => 3.0,
         "C22" => 4.0,
+        "C13" | "C39" => 10.0,
+        "C14" | "C15" | "C16" => 5.0,
+        "C17" => 2.0,
         _ => 1.0,
     }
 }
@@ -186,6 +189,31 @@ fn strip_digits(s: &str) -> String {
     out
 }
 
+/// contents of "..." and '.' literals echo the input (hashes, offending characters): blank them
+fn strip_literals(s: &str) -> String {
+    let mut out = String::new();
+    let cs: Vec<char> = s.chars().collect();
+    let mut i = 0;
+    while i < cs.len() {
+        let c = cs[i];
+        if c == '"' {
+            out.push_str("\"_\"");
+            i += 1;
+            while i < cs.len() && cs[i] != '"' {
+                i += 1;
+            }
+            i += 1;
+        } else if c == '\'' && i + 2 < cs.len() && cs[i + 2] == '\'' {
+            out.push_str("'_'");
+            i += 3;
+        } else {
+            out.push(c);
+            i += 1;
+        }
+    }
+    out
+}
+
 pub fn rel_file(f: &str) -> String {
     if let Some(i) = f.find("/rust/") {
         if f.starts_with("/repo") {
@@ -210,7 +238,7 @@ pub fn catch<T>(what: &str, f: impl FnOnce() -> T) -> Result<T, Failure> {
             let (file, line, msg) = LAST_PANIC.with(|p| p.borrow_mut().take()).unwrap_or_default();
             let file = rel_file(&file);
             let first = msg.lines().next().unwrap_or("");
-            let short: String = strip_digits(first).chars().take(90).collect();
+            let short: String = strip_literals(&strip_digits(first)).chars().take(90).collect();
             Err(Failure::new(
                 format!("panic:{}:{}", file, short),
                 format!("panic during {what} at {file}:{line}: {msg}"),
@@ -507,6 +535,13 @@ where
                                     }
                                     Ok(())
                                 }
+                                Err(f) if std::env::var("VERIF_SURVEY").is_ok() => {
+                                    // development aid: record every unlisted signature (unshrunk) and go on
+                                    let mut sv = SURVEY.lock().unwrap();
+                                    let e = sv.entry(f.sig.clone()).or_insert_with(|| (0, f.detail.clone(), serde_json::to_value(&c).unwrap_or(J::Null), this.name.to_string()));
+                                    e.0 += 1;
+                                    Ok(())
+                                }
                                 Err(f) => {
                                     *failed.borrow_mut() = true;
                                     Err(TestCaseError::fail(f.sig))
@@ -560,6 +595,8 @@ where
         *rep.sub_counts.entry(self.name.to_string()).or_default() += n;
     }
 }
+
+pub static SURVEY: Mutex<BTreeMap<String, (u64, String, J, String)>> = Mutex::new(BTreeMap::new());
 
 fn run_one<C, F: Fn(&C, &mut Tally) -> CaseResult>(check: &F, c: &C, t: &mut Tally) -> CaseResult {
     match catch("case", || check(c, t)) {
@@ -649,6 +686,18 @@ pub fn run_property(prop: Property, ctx: &Ctx) -> i32 {
             }
         }
         s.explore(ctx, &mut rep);
+    }
+    if std::env::var("VERIF_SURVEY").is_ok() {
+        let sv = SURVEY.lock().unwrap();
+        let dir = out_root().join("replays").join(prop.id).join("survey");
+        let _ = std::fs::create_dir_all(&dir);
+        for (sig, (n, detail, case, sub)) in sv.iter() {
+            let body = json!({"property": prop.id, "sub": sub, "signature": sig, "detail": detail, "case": case});
+            let path = dir.join(format!("{}-{:016x}.json", sanitize(sig), fp(sig)));
+            let _ = std::fs::write(&path, serde_json::to_string_pretty(&body).unwrap());
+            println!("SURVEY n={n} {sig}\n       {}", path.display());
+        }
+        println!("SURVEY-ONLY run: the verdict below ignores the surveyed signatures");
     }
     rep.finish(ctx)
 }
